@@ -65,15 +65,12 @@ func checkC07(c c07Case) error {
 		all.WriteString(it.Text)
 	}
 	src := all.String()
-	var rd io.RuneScanner
-	var offset func() int
-	if c.Reader == "counting" {
-		cs := &countingScanner{s: src}
-		rd, offset = cs, func() int { return cs.off }
-	} else {
-		sr := strings.NewReader(src)
-		rd, offset = sr, func() int { return len(src) - sr.Len() }
+	kind := c.Reader
+	if kind == "strings" {
+		kind = "strings.Reader"
 	}
+	rdAny, offset := mkSource(kind, src)
+	rd := rdAny.(io.RuneScanner)
 	boundary := 0
 	for i, it := range c.Items {
 		cmds, comments, err := parser.ParseCommands(nil, "c07", rd)
@@ -128,7 +125,7 @@ func TestC07(t *testing.T) {
 	prop := func(rt *rapid.T) {
 		k := rapid.IntRange(1, 8).Draw(rt, "ncommands")
 		var c c07Case
-		c.Reader = rapid.SampledFrom([]string{"strings", "counting"}).Draw(rt, "reader")
+		c.Reader = rapid.SampledFrom(scannerKinds).Draw(rt, "reader")
 		special := 0
 		for i := 0; i < k; i++ {
 			if rapid.IntRange(0, 5).Draw(rt, "blank") == 0 {
@@ -194,5 +191,5 @@ func TestC07(t *testing.T) {
 		}()})
 	}
 	runRapid(t, n, prop)
-	st.Note("histories: 1-8 generated complete commands (single-line, multi-line compound, with here-documents, with trailing comments, last one with or without final newline) and blank lines concatenated into one stream, consumed by successive ParseCommands calls through a strings.Reader or a custom counting RuneScanner; after every call the reader offset must equal the model's boundary")
+	st.Note("histories: 1-8 generated complete commands (single-line, multi-line compound, with here-documents, with trailing comments, last one with or without final newline) and blank lines concatenated into one stream, consumed by successive ParseCommands calls through one io.RuneScanner (strings.Reader, bytes.Reader, bytes.Buffer, a small bufio.Reader, a custom counting scanner, one whose UnreadRune steps back after a failed read, one that returns a rune together with io.EOF); after every call the reader offset must equal the model's boundary")
 }
